@@ -12,7 +12,7 @@ LEVEL = "exploration"
 GM = ["DSC", "IOU", "ASSD", "RVD"]
 RULE = (
     "Label-map pairs in 1-3-D incl. one or both sides empty x every non-empty subset of global metrics {DSC,IOU,ASSD,RVD} "
-    "(+clDSC in 2-/3-D) x random edge-case handlers (4 scenario values x 5 results per metric) x input types x matchers "
+    "(+clDSC in 2-/3-D) x the default edge-case handler or random ones (4 scenario values x 5 results per metric) x input types x matchers "
     "(threshold, many-to-one, merge) x label values (small, around 2^8, multiples of 256 and 65536 in wide dtypes); plus a re-partitioned variant of the same two foregrounds (voxels relabelled "
     "arbitrarily, other matcher/threshold). Oracle: global_bin_<m> = model metric on the binarised coordinate sets "
     "(set arithmetic, brute-force ASSD; clDSC via skimage skeleton as in C06); identical between base and variant; with "
@@ -66,7 +66,7 @@ def case_strategy(draw):
         "matcher": None if it == "MATCHED_INSTANCE" else mcfg(),
         "matcher2": None if it == "MATCHED_INSTANCE" else mcfg(),
         "gmetrics": gms,
-        "handler": draw(handler_cfg(hm)),
+        "handler": draw(handler_cfg(hm)) if draw(st.integers(0, 3)) else None,
         "relabel_pred": draw(st.lists(st.sampled_from([1, 2, 3, 256, 512]), min_size=n, max_size=n)),
         "relabel_ref": draw(st.lists(st.sampled_from([1, 2, 3, 256, 512]), min_size=n, max_size=n)),
         "primes": draw(st.lists(st.sampled_from(sorted(lib.PRIMES)), min_size=0, max_size=2)) if draw(st.integers(0, 2)) == 0 else [],
@@ -99,6 +99,8 @@ def check(case, stats):
     shape = ref.shape
     P, R = M.foreground(pred), M.foreground(ref)
     hc = case["handler"]
+    if hc is None:  # the library's default handler
+        hc = {"std": lib.DEFAULT_HANDLER["std"], "metrics": {m: lib.DEFAULT_HANDLER["metrics"][m] for m in set(case["gmetrics"]) | {"DSC"}}}
     if P and R:
         scen = None
         nontrivial = P != R
